@@ -284,6 +284,9 @@ class Scenario(apiworld.ApiWorld):
             v = self.step_check()
             if v:
                 return v
+            # the console answers again: the next 300 s poll brings the zones up to date
+            self.mute_gs = False
+            L.run_until(L.time() + 301.0)
         self.mute_gs = False
         if self.console.silent:
             # a half-open link: nothing tells the client except its own heartbeat.  Within 700 s it must have
